@@ -344,6 +344,57 @@ def call_parse_batch(batch):
     return out
 
 
+def _untag(t):
+    k = t["t"]
+    if k in ("str", "bool", "int"):
+        return t["v"]
+    if k == "float":
+        return float(t["v"])
+    if k == "none":
+        return None
+    if k == "datetime":
+        return list_to_dt(t["v"])
+    if k == "date":
+        return _dt.date(*t["v"])
+    if k == "list":
+        return [_untag(x) for x in t["v"]]
+    if k == "tuple":
+        return tuple(_untag(x) for x in t["v"])
+    if k == "dict":
+        return {a: _untag(b) for a, b in t["v"]}
+    if k == "bytes":
+        return bytes.fromhex(t["v"])
+    if k == "settings":
+        from dateparser.conf import settings as S
+        return S.replace(**{a: _untag(b) for a, b in t["v"]}) if t["v"] else S
+    raise ValueError(k)
+
+
+def call_validate(case):
+    """case: {arg: tagged value passed as settings=, s, api} -> which exception class, if any, and where"""
+    import dateparser
+    from dateparser.date import DateDataParser
+    res = {"exc": "", "mro": [], "phase": "", "msg": ""}
+    try:
+        arg = _untag(case["arg"])
+        res["phase"] = "construct"
+        if case.get("api") == "parse":
+            dateparser.parse(case["s"], languages=["en"], settings=arg)
+        elif case.get("api") == "search":
+            from dateparser.search import search_dates
+            search_dates(case["s"], languages=["en"], settings=arg)
+        else:
+            p = DateDataParser(languages=["en"], settings=arg)
+            res["phase"] = "call"
+            p.get_date_data(case["s"])
+    except BaseException as e:  # noqa
+        if isinstance(e, (KeyboardInterrupt, SystemExit)):
+            raise
+        res["exc"], res["mro"] = exc_name(e)
+        res["msg"] = str(e)[:200]
+    return res
+
+
 def call_live_twin(case):
     """C02 mini-history: a parser made with valid settings stays alive while a call with a look-alike of those settings
     (same text, wrong type) is made and - normally - rejected; the live parser is then used again.
